@@ -14,7 +14,10 @@ git -C /repo worktree add -q --detach $W/repo HEAD || exit 2
 (cd $W/repo && git apply $OUT/patch.diff) || { echo "patch does not apply"; git -C /repo worktree remove --force $W/repo; rm -rf $W; exit 2; }
 crates=$(grep '^+++ b/rlib/' $OUT/patch.diff | sed 's#+++ b/rlib/\([^/]*\)/.*#\1#' | sort -u)
 T=0
+# SKIP_TESTS=1: re-check of a filed change whose tests were already run (the patch is unchanged)
+if [ -z "${SKIP_TESTS:-}" ]; then
 for c in $crates; do (cd $W/repo && timeout 1800 cargo test --offline -q -p rlib_$c >$W/test.$c.log 2>&1) || T=1; done
+fi
 cd /verif
 packs=$(python3 - $crates <<'PY'
 import sys, importlib, glob, os
